@@ -22,6 +22,8 @@ from refs import ctlcodec
 from props.ctl import Ctl, check_wire_discipline
 from txtorcon.torcontrolprotocol import TorProtocolError
 
+from props import e3
+
 PROPERTY = 'C01'
 
 SHAPES = {
@@ -254,6 +256,10 @@ def run_sequence(cmds, sched, gran, cuts=None, want_states=False):
 # tasks
 
 def tasks(tier, seed):
+    return _tasks(tier, seed) + e3.prepare(tier)
+
+
+def _tasks(tier, seed):
     out = []
     # segment tasks: (kind, shape, ctx)
     for kind in KINDS:
@@ -293,6 +299,8 @@ def reduced_scheds(n):
 
 
 def run_task(param, acc):
+    if param[0] in ('e3', 'e3-tlc-failed'):
+        return e3.run(param, acc)
     if param[0] == 'seg':
         return run_seg(param, acc)
     _, prefix, n, mode = param
@@ -393,6 +401,8 @@ def run_prefix(cmds, sched, cuts, upto):
 
 
 def replay(p):
+    if p.get('e3'):
+        return e3.replay(p)
     cmds = tuple(tuple(c) for c in p['cmds'])
     cuts = tuple(p['cuts']) if p.get('cuts') is not None else None
     r = run_sequence(cmds, tuple(p['sched']), p['gran'], cuts)
